@@ -136,7 +136,12 @@ class ParallelSourcePlugin(Plugin):
         return self.sub_plugins[self.start_from].is_ready(chunk_i)
 
     def do_compute(self, chunk_i=None, **kwargs):
-        results = kwargs
+        # Inputs (if we do not start from a source) arrive per data kind,
+        # the sub-plugins below look for them per data type.
+        results = dict()
+        for kind, d_of_kind in self.dependencies_by_kind().items():
+            for d in d_of_kind:
+                results[d] = kwargs[kind]
 
         # Run the different plugin computations
         while True:
